@@ -108,6 +108,8 @@ def rule_A1(F, R):
                 ordinal[cn] = ordinal.get(cn, 0) + 1
                 R.count('A1:calls-to-consuming-functions')
                 ok = id(e) in ok_ids
+                if not ok and refusal_clean(lib, K, cn):
+                    ok = True          # the callee refuses cleanly: nothing is consumed when it fails, so looking at its failure and going on is rewinding-free
                 R.obligation(ok, 'A1 %s -> %s #%d' % (name, cn, ordinal[cn]))
                 if not ok:
                     R.violation('%s / A1 / result of %s #%d inspected' % (name, cn.split('::')[-1], ordinal[cn]), 'A1',
@@ -300,6 +302,9 @@ class Walker:
     def __init__(self, lib, K, consts=None):
         self.lib, self.K, self.consts = lib, K, consts or {}
         self.vec_n = 0
+        self.err_paths = []       # events of the paths on which the function returns an error it raised itself
+        self.implicit = []        # (events before, the call's event) for every `?` on the result of a token-reading call: it may fail there
+        self.unclear_failure = False      # a failure whose circumstances are not recorded (inside a loop, `?` on a result whose call is not the last event)
 
     def paths(self, fname):
         t = self.lib.ithir[fname]
@@ -316,7 +321,7 @@ class Walker:
         for (s, kind, v) in self.run(t['body'], st):
             if kind == 'val': kind, v = self.as_return(v)
             if kind == 'ret_ok': out.append((s.ev, v, s.env))
-            elif kind == 'ret_err': pass
+            elif kind == 'ret_err': self.err_paths.append(s.ev)
             else: raise Undec('path ends with %s outside a loop' % kind, t['span']['loc'])
         return out
 
@@ -446,7 +451,7 @@ class Walker:
                         nxt.append(s); continue
                     for (s2, k, v) in self.run(s_['init'], s):
                         if k != 'val': abrupt.append((s2, k, v)); continue
-                        for (s3, v3) in self.concretize(v, s2):
+                        for (s3, v3) in [y for x in self.concretize(v, s2) for y in (self.inspected(x[1], x[0], s_.get('loc')) if s_.get('else') is not None else [x])]:
                             if s_.get('else') is not None:
                                 # `let PAT = value else { diverge };`
                                 s4 = self.pm(s_['pat'], v3, s3)
@@ -483,6 +488,20 @@ class Walker:
             env = {k_: (('ev', idx) if v_ == ('peekpayload', X) else v_) for k_, v_ in s2.env.items()}
             return St(s2.ev, env)
         return st.with_ev(('anytok', frozenset()))
+
+    def inspected(self, v, st, loc):
+        """the Result of a token-reading call looked at instead of propagated (`let Ok(op) = parse_operator(tokens) else { .. }`): allowed when the
+        callee refuses cleanly (on every path on which it fails it has consumed nothing); then it fails exactly when the next token is not one
+        its successes start with -> [(state, ('ok', value)), (state without the call, next token not in FIRST, ('err',))]"""
+        if v[0] != 'res': return [(st, v)]
+        ev = st.ev[-1] if st.ev else None
+        if ev is None or ev[0] != 'nt' or not (v[1] == ('ev', len(st.ev) - 1) or v[1][0] != 'ev'):
+            raise Undec('the Result of a token-reading call is inspected away from the call', loc)
+        if ev[2] or not refusal_clean(self.lib, self.K, ev[1]):
+            raise Undec('the Result of %s is inspected, and %s may fail after consuming tokens' % (ev[1].split('::')[-1], ev[1].split('::')[-1]), loc)
+        first = first_tokens(self.lib, self.K, ev[1])
+        if first is None: raise Undec('the tokens %s starts with cannot be read' % ev[1].split('::')[-1], loc)
+        return [(st, ('ok', v[1])), (St(st.ev[:-1] + (('nla', frozenset(first)),), st.env), ('err',))]
 
     def concretize(self, v, st):
         """a token read whose value is kept (`let t = tokens.peek();`, `tokens.next().and_then(..)`) instead of being matched on the spot:
@@ -529,6 +548,15 @@ class Walker:
                 if v[0] == 'none': return st if p['variant'] == 'None' else None
                 if p['variant'] != 'Some': return None
                 return self.pm(p['subs'][0]['pat'], v[1], st) if p['subs'] else st
+            if adt == 'std::result::Result' and v[0] in ('ok', 'err'):
+                if v[0] == 'ok':
+                    if p['variant'] != 'Ok': return None
+                    return self.pm(p['subs'][0]['pat'], v[1] if v[1] is not None else ('other',), st) if p['subs'] else st
+                if p['variant'] != 'Err': return None
+                for sp in p.get('subs') or []:
+                    for q in walk_pat(sp['pat']):
+                        if q['k'] == 'Binding': st = st.bind(q['var'], ('other',))
+                return st
             if adt == TOK and v[0] == 'token':
                 if p['variant'] != v[1]: return None
                 src = v[2] if len(v) > 2 else None
@@ -611,7 +639,7 @@ class Walker:
         for (s, k, v) in self.run(e['body'], inner):
             if k in ('val', 'continue'): cont.append(s.ev)
             elif k == 'break': brk.append(s.ev)
-            elif k == 'ret_err': pass
+            elif k == 'ret_err': self.unclear_failure = True
             else: raise Undec('return from inside a loop', e['loc'])
             # propagate vector pushes made inside the loop
             for key, val in s.env.items():
@@ -625,6 +653,11 @@ class Walker:
             # `if let PAT = tokens.peek()/next() { A } else { B }` is the two-arm match { PAT => A, _ => B }
             probe = self.run(c['expr'], st)
             if len(probe) == 1 and probe[0][1] == 'val' and probe[0][2][0] in ('peek', 'next'):
+                fake = {'k': 'Match', 'loc': e['loc'], 'source': 'IfLetDesugar', 'scrutinee': c['expr'],
+                        'arms': [{'pat': c['pat'], 'guard': None, 'body': e['then']},
+                                 {'pat': {'k': 'Wild', 'loc': e['loc']}, 'guard': None, 'body': e['else'] if e['else'] is not None else {'k': 'Tuple', 'fields': [], 'loc': e['loc']}}]}
+                return self.r_Match(fake, st)
+            if len(probe) >= 1 and all(k_ != 'val' or v_[0] in ('res', 'ok', 'err', 'some', 'none', 'token', 'enum', 'enumv', 'tuple') for (_, k_, v_) in probe):
                 fake = {'k': 'Match', 'loc': e['loc'], 'source': 'IfLetDesugar', 'scrutinee': c['expr'],
                         'arms': [{'pat': c['pat'], 'guard': None, 'body': e['then']},
                                  {'pat': {'k': 'Wild', 'loc': e['loc']}, 'guard': None, 'body': e['else'] if e['else'] is not None else {'k': 'Tuple', 'fields': [], 'loc': e['loc']}}]}
@@ -688,7 +721,10 @@ class Walker:
             if not (call['k'] == 'Call' and (callee_name(call) or '').endswith('Try>::branch')): raise Undec('unexpected ? desugaring', e['loc'])
             for (s, k, v) in self.run(call['args'][0], st):
                 if k != 'val': out.append((s, k, v)); continue
-                if v[0] == 'res': out.append((s, 'val', v[1]))
+                if v[0] == 'res':
+                    if s.ev and s.ev[-1][0] in ('nt', 'tok'): self.implicit.append((s.ev[:-1], s.ev[-1]))
+                    else: self.unclear_failure = True
+                    out.append((s, 'val', v[1]))
                 elif v[0] == 'ok': out.append((s, 'val', v[1]))
                 elif v[0] == 'err': out.append((s, 'ret_err', None))
                 elif v[0] == 'other': out.append((s, 'val', ('other',)))      # `?` on a non-parser Result (io): success continues
@@ -742,7 +778,10 @@ class Walker:
                     earlier |= set(toks)
                     none_seen = none_seen or has_none
                 continue
-            if v[0] in ('some', 'none', 'tuple', 'enumv') or (v[0] == 'token' and any(q.get('subs') or q['k'] in ('Binding', 'Or') and q.get('sub') for arm in e['arms'] for q in walk_pat(arm['pat']))):
+            if v[0] == 'res':
+                for (s3, v3) in self.inspected(v, s, e.get('loc')): out.extend(self.const_match(e, v3, s3))
+                continue
+            if v[0] in ('some', 'none', 'tuple', 'enumv', 'ok', 'err') or (v[0] == 'token' and any(q.get('subs') or q['k'] in ('Binding', 'Or') and q.get('sub') for arm in e['arms'] for q in walk_pat(arm['pat']))):
                 out.extend(self.const_match(e, v, s)); continue
             if v[0] in ('enum', 'token', 'lit'):
                 # match on a value known on this path (a constant argument of a specialised parse function): the first arm that accepts it
@@ -1345,6 +1384,12 @@ def rule_A3(F, R, ex=None):
         extra = [p for p in t['params'] if not is_reader_ty(p['ty'])]
         variants = [()] if not extra else call_site_consts(lib, K, fname, len(extra))
         if variants is None: variants = walked_consts(lib, K, fname)
+        if variants is None and extra:
+            import facts as _facts
+            called = any(e['k'] == 'Call' and callee_name(e) == fname for g_, t_ in lib.ithir.items() for e in walk(t_['body'])) or \
+                any(e['k'] == 'ZstLiteral' and 'fn' in e and canon(e['fn'].get('res') or e['fn']['def']) == fname for g_, t_ in lib.ithir.items() for e in walk(t_['body']))
+            if fname not in _facts.baseline_fns() and not called:
+                continue          # a new helper that is inlined at every call site: it is walked as part of its callers
         if variants is None:
             R.violation('%s / A3 / UNDECIDABLE / non-constant extra argument' % fname, 'UNDECIDABLE', 'parse function %s is called with an extra argument that is not a constant' % fname.split('::')[-1]); continue
         for lits in variants:
@@ -1437,6 +1482,61 @@ def rule_A3(F, R, ex=None):
         ok = c in seen
         R.obligation(ok, 'A3 seen ' + c)
         if not ok: R.violation('rsbdd::parser / A3 / no path builds %s' % c, 'A3', 'no parse path constructs %s' % c)
+
+_CLEAN = {}
+def refusal_clean(lib, K, g, _stack=()):
+    """does `g` refuse cleanly: on every path on which it returns an error it has consumed no token?  Explicit error exits must come
+    before any consumption; a `?` on a token-reading call may fail only before any consumption and only if that callee refuses cleanly
+    itself; `expect(T)` consumes even when it fails, so a `?` on it must be unable to fail (the look-ahead before it leaves only T)."""
+    key = (id(lib), g)
+    if key in _CLEAN: return _CLEAN[key]
+    if g in _stack or g in (EXPECT,): return False
+    if g == CHECK: return True
+    t = lib.ithir.get(g)
+    if t is None or [p for p in t['params'] if not is_reader_ty(p['ty'])]: return False
+    ok = True
+    try:
+        w = Walker(lib, K)
+        paths = w.paths(g)
+        consuming = lambda ev: ev[0] in ('tok', 'anytok', 'nt', 'loop')
+        if w.unclear_failure: ok = False
+        if any(ev[0] == 'loop' for (evs, v, env) in paths for ev in evs): ok = False
+        for evs in w.err_paths:
+            if any(consuming(ev) for ev in evs): ok = False
+        for before, ev in w.implicit:
+            if any(consuming(x) for x in before): ok = False
+            elif ev[0] == 'tok':
+                pend = frozenset(x for x in before if x[0] in ('la', 'nla'))
+                if allowed(pend) != frozenset([ev[1]]): ok = False
+            elif ev[0] == 'nt':
+                if ev[2] or not refusal_clean(lib, K, ev[1], _stack + (g,)): ok = False
+    except Undec:
+        ok = False
+    _CLEAN[key] = ok
+    return ok
+
+def first_tokens(lib, K, g, _stack=()):
+    """the tokens with which a success of `g` can start (None if that cannot be read)"""
+    if g in _stack: return None
+    t = lib.ithir.get(g)
+    if t is None or [p for p in t['params'] if not is_reader_ty(p['ty'])]: return None
+    try: paths = Walker(lib, K).paths(g)
+    except Undec: return None
+    out = set()
+    for (evs, v, env) in paths:
+        pend = set(); got = None
+        for ev in evs:
+            if ev[0] in ('la', 'nla'): pend.add(ev)
+            elif ev[0] == 'tok': got = allowed(frozenset(pend)) & {ev[1]}; break
+            elif ev[0] == 'anytok': got = allowed(frozenset(pend | {('nla', ev[1])})); break
+            elif ev[0] == 'nt':
+                f = first_tokens(lib, K, ev[1], _stack + (g,)) if not ev[2] else None
+                if f is None: return None
+                got = allowed(frozenset(pend)) & set(f); break
+            elif ev[0] == 'loop': return None
+        if got is None: return None          # a success that consumes nothing
+        out |= set(got)
+    return out
 
 def consumed_tokens(evs):
     """the tokens a path consumes itself, in order (each a frozenset of the tokens it may be), calls to parse functions as ('nt', name, lits)"""
